@@ -11,6 +11,7 @@ CONSTANTS
   Depth = 0
   SeqLevels <- QuickLevels
   SeqFlags <- QuickFlags
+  SeqRewire = FALSE
   SeqNames <- SecNames
 INVARIANT TypeOK
 INVARIANT ClosedSilent
